@@ -60,7 +60,8 @@ def main():
                 jobs.append((kind, item))
     with ThreadPoolExecutor(max_workers=int(os.environ.get("REGRESS_JOBS", "6"))) as ex:
         results = list(ex.map(lambda j: run_item(*j), jobs))
-    sh("git -C /repo worktree prune")
+    if not os.environ.get("REGRESS_NOPRUNE"):
+        sh("git -C /repo worktree prune")
     head = sh("git -C /repo rev-parse --short HEAD").stdout.strip()
     missed, alarms, broken = [], [], []
     for res in results:
